@@ -329,7 +329,7 @@ def run_cert_images(cases, impl, drv, drv_key, tag, timeout=1800):
     -> {case id: (ok '1'/'0'/'-', count, note)}"""
     todo = []
     for c in cases:
-        if c.var != "bw" or not (c.kind == 0 or c.entry in ("new", "with_values")):
+        if c.var != "bw":
             continue
         lines = impl.get(c.id, [])
         hx = [l.split(" ", 1)[1] for l in lines if l.startswith("IMGHEX ")]
@@ -366,12 +366,15 @@ def run_cert_images(cases, impl, drv, drv_key, tag, timeout=1800):
         futs = [ex.submit(one, i, s) for i, s in enumerate(shards)]
         for f in futs:
             for cid, lines in parse_obs(f.result()).items():
+                safe = None
                 for l in lines:
+                    if l.startswith("ISAFE"):
+                        safe = l.split()[1]
                     if l.startswith("ICERT"):
                         p = l.split()
-                        res[cid] = (p[1], int(p[2]), " ".join(p[3:]))
+                        res[cid] = (p[1], int(p[2]), " ".join(p[3:]), safe)
     for c, _ in todo:
-        res.setdefault(c.id, ("0", 0, "checker did not answer (timeout or crash)"))
+        res.setdefault(c.id, ("0", 0, "checker did not answer (timeout or crash)", "0"))
     return res
 
 
